@@ -1,6 +1,6 @@
 (* C19: property theorems (statements in full; proofs in Proofs*.v). *)
 From Coq Require Import List NArith ZArith Bool.
-From C19 Require Import Gen Model Spec ProofsPtr ProofsPatch ProofsPatchExact ProofsParse ProofsNum ProofsEq RTNum ProofsDouble RTStr RTDefs RTMain RTFinal RTDouble ProofsHandler ProofsHandlerObj ProofsLexEvents ProofsPatchDoc ProofsKinds.
+From C19 Require Import Gen Model Spec ProofsPtr ProofsPatch ProofsPatchExact ProofsParse ProofsNum ProofsEq RTNum ProofsDouble RTStr RTDefs RTMain RTFinal RTDouble ProofsHandler ProofsHandlerObj ProofsLexEvents ProofsWritten ProofsPatchDoc ProofsKinds.
 Import ListNotations.
 Local Open Scope N_scope.
 
@@ -149,6 +149,18 @@ Example c19_lexer_events_example :
   POk [EOpenObj; EKey [97]; EOpenArr; EValue (JUInt 1); EOpenObj; ECloseObj; ECloseArr;
        EKey [98]; EValue JNull; ECloseObj] [].
 Proof. vm_compute. reflexivity. Qed.
+
+(* Unconditionally, for every writer output: for every tree v inside the c19_roundtrip guard, the
+   handler machine of JsonParser, started with Begin() and fed with the calls the lexer makes for the
+   text JsonWriter writes for v, ends with no error, empty stacks, empty m_key and m_root = canon v
+   (the canonical form has strictly increasing member names: ProofsWritten.sorted_canon). *)
+Theorem c19_written_handler_builds :
+  forall v : jv, wfb (N.to_nat MAX_DEPTH) v = true ->
+    exists es, lex_events (write cx_parsed 0 v) = POk es [] /\
+               h_run (h_step h_init EBegin) es =
+               {| h_err := 0; h_root := Some (canon v); h_key := []; h_stack := [] |}.
+Proof. exact written_handler_builds. Qed.
+Print Assumptions c19_written_handler_builds.
 
 (* Doubles in equality.  The MODEL compares two JsonDouble leaves by their stored representation
    and never equates a double with a non-double (the C++ also returns false for double vs integer,
